@@ -6,7 +6,9 @@ logger, written branch by branch from the Go source.
 * `Line`, `Line.equal`            — `logLine` (observable fields) and `logLine.Equal`; the merge decision
                                     itself is `PB.Gen.Log.lineEqual`, regenerated from the switch in
                                     logging.go on every run (PBProofs/C20 states what it must be)
-* `Levels`, `fastcheck`, `enabled` — `fastcheck()` and the level filter at the top of `log()`
+* `Levels`, `fastcheck`, `enabled` — `fastcheck()` (regenerated: `PB.Gen.Log.fastcheck`) and the level filter at
+                                    the top of `log()`
+* `addTracer`                     — the decision tree of `AddTracer` (regenerated: `PB.Gen.Log.addTracer`)
 * `submitLine`                    — `ContextTracer.Submit`: last collected line becomes the main line
 * `wstep`                         — the writer goroutine (`writer()` + `finalizeWriting()`), one event per
                                     channel operation / atomic store, with the adapter writes it performs
@@ -73,11 +75,9 @@ def lookupPkg : List (Nat × Nat) → Nat → Option Nat
   | [], _ => none
   | (k, v) :: rest, p => if k = p then some v else lookupPkg rest p
 
-/-- `fastcheck(level)`. -/
-def fastcheck (c : Levels) (lvl : Nat) : Bool :=
-  if c.active then true
-  else if lvl ≥ c.glob then true
-  else false
+/-- `fastcheck(level)`: the function of log/input.go as regenerated from the source
+    (`PB.Gen.Log.fastcheck`; PBProofs/C20 `fastcheck_decision` states what it must be). -/
+def fastcheck (c : Levels) (lvl : Nat) : Bool := PB.Gen.Log.fastcheck c.active c.glob lvl
 
 /-- The level filter of `log()`. `pkg = none` stands for a caller file path with fewer than two
     segments ("file too short for package levels"). -/
@@ -96,6 +96,14 @@ def enabled (c : Levels) (pkg : Option Nat) (lvl : Nat) : Bool :=
     active and the package has one, the global level otherwise. -/
 def threshold (c : Levels) (p : Nat) : Nat :=
   if c.active then (lookupPkg c.pkgs p).getD c.glob else c.glob
+
+/-- `AddTracer(ctx)` called from origin `pkg` (`none`: a caller file path with fewer than two segments) under
+    the levels `c`: is a live tracer handed out? The decision tree is the code's own, regenerated from
+    log/trace.go (`PB.Gen.Log.addTracer`): `fastcheck(TraceLevel)`, then — package levels active — the entry of
+    the caller's package or else the global level, — inactive — the global level, then the check for a tracer
+    already in the context. `callerOk = false`: `runtime.Caller(1)` failed. -/
+def addTracer (c : Levels) (ctxNil callerOk : Bool) (pkg : Option Nat) (existing : Bool) : Bool :=
+  PB.Gen.Log.addTracer ctxNil callerOk pkg.isNone c.active c.glob (pkg.bind (lookupPkg c.pkgs)) existing
 
 /-! ## The levels in force when the logger starts: `-log` / `-plog` flags, `ParseLevel`, `Severity.Name` -/
 
@@ -285,6 +293,31 @@ def PState.pending : PState → List Line
 
 /-! ## The interleaving semantics -/
 
+/-- One line collected by a live tracer (`tracer.log`), with ghost notes about the collecting call: the origin
+    it was made from and the levels in force at that moment. -/
+structure Collected where
+  e : Entry
+  pkg : Option Nat
+  lv : Levels
+  deriving DecidableEq, Repr, Inhabited
+
+/-- A live context tracer: what `AddTracer` put into the context of a goroutine. `lv`/`pkg` are ghost: the
+    levels in force when `AddTracer` took its decision and the origin it was called from. -/
+structure Tracer where
+  logs : List Collected
+  lv : Levels
+  pkg : Option Nat
+  deriving DecidableEq, Repr, Inhabited
+
+/-- A submission as accepted (ghost history): the line `Submit` built and the tracer it came from. -/
+structure Sub where
+  line : Line
+  tr : Tracer
+  deriving DecidableEq, Repr, Inhabited
+
+/-- Is `lvl` one of the `Severity` constants (what the logging functions pass on, see `levelCalls`)? -/
+def isSeverity (lvl : Nat) : Bool := PB.Gen.Log.severities.any (·.2 == lvl)
+
 /-- A buffered line with the (ghost) id of the goroutine that enqueued it. -/
 abbrev Owned := Nat × Line
 
@@ -298,7 +331,9 @@ structure St where
   shut : Bool               -- `shutdownSignal` closed (Shutdown requested)
   w : Writer
   prods : Nat → PState
+  tr : Nat → Option Tracer  -- the live tracer in the context the goroutine works with (one context at a time)
   -- ghost history
+  subs : Nat → List Sub     -- per goroutine: its tracer submissions, in program order
   out : List Write          -- adapter calls so far
   enq : List Owned          -- everything ever enqueued, in channel order
   deq : List Owned          -- everything ever dequeued by the writer, in order
@@ -310,12 +345,17 @@ def upd {α : Type} (f : Nat → α) (p : Nat) (x : α) : Nat → α := fun q =>
 
 def St.init (cap : Nat) (paced : Bool) (lv : Levels) : St :=
   { cap := cap, paced := paced, lv := lv, buf := [], flag := false, token := false, shut := false,
-    w := Writer.init, prods := fun _ => .idle, out := [], enq := [], deq := [],
+    w := Writer.init, prods := fun _ => .idle, tr := fun _ => none, subs := fun _ => [], out := [], enq := [], deq := [],
     logged := fun _ => [], enqAtShut := 0 }
 
 inductive Act where
   | p (pid : Nat) (e : PEv)
   | w (e : WEv)
+  | addTracer (pid : Nat) (pkg : Option Nat) (live : Bool)
+                                  -- `AddTracer(ctx)` by goroutine `pid` from origin `pkg`; `live`: a tracer came back
+  | collect (pid : Nat) (e : Entry) (pkg : Option Nat)
+                                  -- `tracer.Info(msg)` … on the goroutine's LIVE tracer from origin `pkg` (`tracer.log`:
+                                  -- no level check at all); on a nil tracer the same call is `.p pid (.call …)`
   | wforce (pid : Nat)            -- rendezvous on `forceEmptyingOfBuffer` between producer `pid` and the writer
   | trigger                       -- `TriggerWriter()` (non-blocking send on `writeTrigger`)
   | setLevel (g : Nat)
@@ -339,8 +379,8 @@ def step (s : St) : Act → Option St
   -- producers
   | .p pid (.call l pkg pass) =>
     match s.prods pid with
-    | .idle =>
-      if pass = fastcheck s.lv l.lvl then
+    | .idle =>   -- every logging function calls `log(…, nil)`: a plain line (`levelCalls`), pre-checked at its own severity
+      if l.trace = none ∧ pass = fastcheck s.lv l.lvl then
         some { s with prods := upd s.prods pid (if pass then .inLog l pkg else .idle) }
       else none
     | _ => none
@@ -352,9 +392,17 @@ def step (s : St) : Act → Option St
         else some { s with prods := upd s.prods pid .idle }
       else none
     | _ => none
-  | .p pid (.submit l) =>
+  | .p pid (.submit l) =>      -- `Submit` on the live tracer: no level check; the decision was `AddTracer`'s
     match s.prods pid with
-    | .idle => if l.trace.isSome then some (s.accept pid l) else none
+    | .idle =>
+      if l.trace.isSome then
+        match s.tr pid with
+        | some t =>
+          if submitLine (t.logs.map (·.e)) = some l then
+            some { (s.accept pid l) with tr := upd s.tr pid none, subs := upd s.subs pid (s.subs pid ++ [⟨l, t⟩]) }
+          else none
+        | none => none
+      else none
     | _ => none
   | .p pid .enq =>
     match s.prods pid with
@@ -385,6 +433,22 @@ def step (s : St) : Act → Option St
     match s.prods pid with
     | .won => if s.token then some { s with prods := upd s.prods pid .idle } else none
     | _ => none
+  -- context tracers
+  | .addTracer pid pkg live =>
+    match s.prods pid with
+    | .idle =>
+      if live = addTracer s.lv false true pkg (s.tr pid).isSome then
+        if live then some { s with tr := upd s.tr pid (some { logs := [], lv := s.lv, pkg := pkg }) }
+        else some s
+      else none
+    | _ => none
+  | .collect pid e pkg =>
+    match s.prods pid, s.tr pid with
+    | .idle, some t =>
+      if isSeverity e.lvl then
+        some { s with tr := upd s.tr pid (some { t with logs := t.logs ++ [⟨e, pkg, s.lv⟩] }) }
+      else none
+    | _, _ => none
   -- the writer
   | .w .token =>
     if s.token ∧ s.w.pc = .waitLogs then some { s with token := false, w := { s.w with pc := .gotToken } }
@@ -470,7 +534,9 @@ inductive Kind where
   | any      -- a call cut off by the end of the run: optional, any form
   deriving DecidableEq, Repr
 
-/-- Some completed calls of one item. `cfg = none`: the level configuration changed during the call. -/
+/-- Some completed calls of one item. `cfg = none`: the level configuration changed during the call. For a
+    tracer submission "the call" is the tracer's whole life, from `AddTracer` to the return of `Submit`: the
+    level decision for everything it carries is taken once, by `AddTracer`. -/
 structure Seg where
   cfg : Option Levels
   before : Bool          -- the call returned before Shutdown was requested
@@ -484,13 +550,17 @@ structure Item where
   kind : Kind
   segs : List Seg
   entries : List Nat     -- tracer: the items of the attached entries
+  low : Nat              -- the lowest severity among the lines the call hands over: `lvl` for a plain call; for a
+                         -- submission the minimum over its collected entries and its main line
   deriving Repr
 
-/-- Is a call of this kind emitted under configuration `c`? -/
+/-- Is a call of this kind emitted under configuration `c`? A plain call: iff its severity is at or above the
+    level in force for its origin. A submission (configuration unchanged from `AddTracer` to `Submit`): iff EVERY
+    line it carries is — "messages below the level in force are never emitted" holds for collected lines too. -/
 def Item.on (e : Item) (c : Levels) : Bool :=
   match e.kind with
   | .plain => enabled c (some e.org) e.lvl
-  | .tracer => true
+  | .tracer => enabled c (some e.org) e.low
   | .any => true
 
 /-- Lines that MUST reach the adapter: enabled under a stable configuration, completed before Shutdown. -/
@@ -596,12 +666,39 @@ def conformsFrom : List Item → List Rem → Bool
 
 def conformsB (es : List Item) (got : List Got) : Bool := conformsFrom es [(got.length, got)]
 
+/-- Where the exact decision gets stuck: the first item after which no remainder is left — whichever way the
+    items before it are cut, the output does not continue with the `lo` lines this item needs. -/
+def stuckAt : List Item → List Rem → Option Item
+  | [], _ => none
+  | e :: es, fr =>
+    match dedupRem (splitsAll e fr) with
+    | [] => some e
+    | fr' => stuckAt es fr'
+
+/-- Is some line of item `i` emitted more often than all the items that can take it allow together? -/
+def overEmitted (es : List Item) (got : List Got) (i : Nat) : Bool :=
+  let cand := got.filter (·.item == i)
+  cand.any fun g => ((es.filter (·.matches g)).map (·.hi)).sum < cand.countP (· == g)
+
+/-- The verdict of the greedy walk, corrected where it is known to misname: `A B A` with `B` LOST arrives as
+    `A A`, which the walk calls a duplicate of `A`. A `duplicated` is kept only if the line really is emitted
+    more often than allowed; otherwise the item at which every cutting gets stuck is named as lost. -/
+def diagnose (gid : Nat) (es : List Item) (got : List Got) (v : Verdict) : Verdict :=
+  match v with
+  | .pass => .fail "unexpected" gid 0
+  | .fail cls g i =>
+    if cls == "duplicated" && !overEmitted es got i then
+      match stuckAt es [(got.length, got)] with
+      | some e => .fail "lost" gid e.item
+      | none => .fail cls g i
+    else .fail cls g i
+
 /-- One goroutine's part of the expanded output against its items: accepted iff it can be cut into
-    conforming blocks; otherwise the verdict of the greedy walk says where. -/
+    conforming blocks; otherwise the (corrected) verdict of the greedy walk says where. -/
 def checkProd (gid : Nat) (es : List Item) (got : List Got) : Verdict :=
   match greedyProd gid es got with
   | .pass => .pass
-  | v => if conformsB es got then .pass else v
+  | v => if conformsB es got then .pass else diagnose gid es got v
 
 /-- All goroutines `0 … np-1`, in order; first failure wins. -/
 def checkProds (outs : List OutW) (exps : Nat → List Item) : Nat → Nat → Verdict
@@ -641,6 +738,24 @@ def checkTracers (outs : List OutW) (exps : Nat → List Item) : Nat → Nat →
     | some m => .fail "tracer-lost" gid m.item
     | none => checkTracers outs exps (gid + 1) n
 
+/-! "Messages below the level in force are never emitted", line by line: an output line that belongs to items
+    of its goroutine none of which may be emitted at all (every call of them was made below the level in force,
+    under a configuration that did not change during the call) is named first — the walk along the items would
+    only report the first place where its cutting into blocks fails, which may be elsewhere. -/
+
+/-- The line has the identity and form of some item, and every such item has `hi = 0`. -/
+def neverAllowed (es : List Item) (g : Got) : Bool :=
+  es.any (·.matches g) && !es.any (fun e => e.matches g && decide (0 < e.hi))
+
+/-- (Only lines that match an item with `hi = 0` need the full test; usually there are few such items.) -/
+def checkFiltered (outs : List OutW) (exps : Nat → List Item) : Nat → Nat → Verdict
+  | _, 0 => .pass
+  | gid, n + 1 =>
+    let dead := (exps gid).filter (·.hi == 0)
+    match (expandOut gid outs).find? (fun g => dead.any (·.matches g) && neverAllowed (exps gid) g) with
+    | some g => .fail "filtered" gid g.item
+    | none => checkFiltered outs exps (gid + 1) n
+
 def checkRun (np : Nat) (exps : Nat → List Item) (outs : List OutW) : Verdict :=
   match outs.find? (fun o => o.gid ≥ np) with
   | some o => .fail "unexpected" o.gid o.item
@@ -648,8 +763,11 @@ def checkRun (np : Nat) (exps : Nat → List Item) (outs : List OutW) : Verdict 
     match outs.find? OutW.mergedTracer with
     | some o => .fail "trace" o.gid o.item
     | none =>
-      match checkTracers outs exps 0 np with
-      | .pass => checkProds outs exps 0 np
+      match checkFiltered outs exps 0 np with
+      | .pass =>
+        match checkTracers outs exps 0 np with
+        | .pass => checkProds outs exps 0 np
+        | v => v
       | v => v
 
 end PB.Log
